@@ -486,17 +486,46 @@ def comp_lens(comps, exact):
 
 
 # ====================================================================== the check
-def par_run_lines(ctx, argv, lines, timeout, nproc=14):
-    """ctx.run_lines over contiguous chunks in parallel (the driver / harness are pure line-in line-out filters)"""
+def par_run_lines(ctx, argv, lines, timeout, nproc=14, chunk=None):
+    """ctx.run_lines over contiguous chunks in parallel (the driver / harness are pure line-in line-out filters).
+    `chunk`: lines per process; `timeout` applies to each such process, so a hanging request costs one timeout and is
+    attributed to its line"""
     import concurrent.futures
     if len(lines) < 40:
-        return ctx.run_lines(argv, lines, timeout=timeout)
+        return ctx.run_lines(argv, lines, timeout=timeout, chunk=chunk)
     n = min(nproc, max(1, len(lines) // 20))
     size = (len(lines) + n - 1) // n
     chunks = [lines[i:i + size] for i in range(0, len(lines), size)]
     with concurrent.futures.ThreadPoolExecutor(max_workers=n) as ex:
-        parts = list(ex.map(lambda ch: ctx.run_lines(argv, ch, timeout=timeout), chunks))
+        parts = list(ex.map(lambda ch: ctx.run_lines(argv, ch, timeout=timeout, chunk=chunk), chunks))
     return [o for part in parts for o in part]
+
+
+def harness_run(ctx, hl, kinds):
+    """run the harness; a first slice of every kind goes first, and a kind whose slice hangs three times is not pursued
+    (the hangs found are reported, the rest of that stream is answered MISSING-SKIPPED)"""
+    first = {}; canary = []; rest = []
+    for j, k in enumerate(kinds):
+        first[k] = first.get(k, 0) + 1
+        (canary if first[k] <= 60 else rest).append(j)
+    outs = [None] * len(hl)
+    T = 25 if ctx.quick else 60
+    res = par_run_lines(ctx, [HEXE], [hl[j] for j in canary], T, chunk=20)
+    for j, o in zip(canary, res):
+        outs[j] = o
+    hung = {}
+    for j in canary:
+        if outs[j] == 'TIMEOUT':
+            hung[kinds[j]] = hung.get(kinds[j], 0) + 1
+    skip = {k for k, n in hung.items() if n >= 3}
+    if skip:
+        ctx.log('implementation hangs on %s requests: the rest of these streams is skipped' % sorted(skip))
+        ctx.notes['streams_cut_short_after_hangs'] = sorted(skip)
+    todo = [j for j in rest if kinds[j] not in skip]
+    res = par_run_lines(ctx, [HEXE], [hl[j] for j in todo], T, chunk=40)
+    for j, o in zip(todo, res):
+        outs[j] = o
+    return [o if o is not None else 'SKIPPED' for o in outs]
 
 
 def run(ctx):
@@ -748,15 +777,15 @@ def judge_all(ctx, drv, cases, shrink=False):
     stats = ctx.notes.setdefault('stats', {})
     def st(k, n=1):
         stats[k] = stats.get(k, 0) + n
-    hl = []; idx = []
+    hl = []; idx = []; kinds = []
     for i, c in enumerate(cases):
-        hl.append(harness_line(c)); idx.append((i, 'main'))
+        hl.append(harness_line(c)); idx.append((i, 'main')); kinds.append(c['kind'] + ('d' if c.get('directed') else ''))
         for e in extra_lines(c):
-            hl.append(e); idx.append((i, e.split(' ', 1)[0]))
-    outs = par_run_lines(ctx, [HEXE], hl, 900 if not ctx.quick else 300)
+            hl.append(e); idx.append((i, e.split(' ', 1)[0])); kinds.append(c['kind'] + ':' + e.split(' ', 1)[0])
+    outs = harness_run(ctx, hl, kinds)
     import time as _t
     for attempt in range(3):
-        again = [j for j, o in enumerate(outs) if o.startswith('CRASH') or o in ('TIMEOUT', 'MISSING', '')]
+        again = [j for j, o in enumerate(outs) if o.startswith('CRASH') or o in ('MISSING', '')]
         if not again or len(again) > 2000:
             break
         _t.sleep(2 + 5 * attempt)
@@ -808,7 +837,7 @@ def judge_all(ctx, drv, cases, shrink=False):
                     shr = None
             rc = shr or c
             rl = harness_line(rc)
-            ctx.violation('%s_%d' % (c['kind'], i),
+            ctx.violation('%s_%d_%s' % (c['kind'], i, name.replace('-', '_')),
                           dict(clause=name, why=why, case=json.loads(cid(c)), shrunk=json.loads(cid(shr)) if shr else None,
                                request=rl, implementation=ctx.run_lines([HEXE], [rl], timeout=60)[0][:2000],
                                checker_request=(mres.get(i) or ('', ''))[0][:3000], checker_answer=(mres.get(i) or ('', ''))[1][:300],
@@ -830,9 +859,11 @@ def judge_case(ctx, c, line, o, po, mres, allres, st):
     k = c['kind']
     def crash(o):
         return o.startswith('CRASH') or o in ('TIMEOUT', 'MISSING', '')
+    if o == 'SKIPPED':
+        return []
     if crash(o):
         ctx.count(line, True)
-        return [('no-crash', 'implementation %s on %s' % (o[:200], line[:200]), None)]
+        return [('no-crash', 'implementation %s on %s' % (o[:200] or 'died', line[:200]), None)]
     for tag, (l2, o2) in allres.items():
         if tag != 'main' and crash(o2):
             bad.append(('no-crash', 'implementation %s on %s' % (o2[:200], l2[:200]), None))
@@ -1147,7 +1178,7 @@ def ctx_interp(ctx, comps, d):
 def fails(ctx, drv, c, clause):
     line = harness_line(c)
     extras = extra_lines(c)
-    outs = ctx.run_lines([HEXE], [line] + extras, timeout=60)
+    outs = ctx.run_lines([HEXE], [line] + extras, timeout=20, chunk=1)
     o = outs[0]
     allres = {'main': (line, o)}
     for e, oo in zip(extras, outs[1:]):
